@@ -77,3 +77,29 @@ Section WithHash.
     inversion H; subst s'. exists e. split; [reflexivity|]. split; [apply hget_hset_same | reflexivity].
   Qed.
 End WithHash.
+
+(* every key of a constructed (KeySet(keys), import_key_set, generate_key_set)
+   set has a kid: the one it came with, else its thumbprint *)
+Section KeySetKids.
+  Variable hashnew : str -> bytes -> res bytes.
+
+  Theorem keyset_every_key_has_kid ks ks' :
+    keyset_init hashnew ks = Ok ks' ->
+    Forall2 (fun k k' =>
+               ko_cls k' = ko_cls k /\
+               match kid_of k with
+               | Some v => k' = k /\ kid_of k' = Some v
+               | None => exists t, key_thumbprint hashnew (ko_cls k) (ko_dict k) = Ok t /\
+                                   kid_of k' = Some (PStr t) /\
+                                   (forall m, m <> s_kid -> dget (ko_dict k') m = dget (ko_dict k) m)
+               end) ks ks'.
+  Proof.
+    intro H. apply keyset_init_spec in H. induction H as [|k k' r r' Hk Hr IH]; constructor; [|exact IH].
+    apply kid_characterised in Hk. unfold kid_of in *. unfold dmem in Hk.
+    destruct (dget (ko_dict k) s_kid) as [v|] eqn:E.
+    - destruct Hk as [[_ Hk]|[Hk _]]; [|discriminate]. subst k'. rewrite E. repeat split; reflexivity.
+    - destruct Hk as [[Hk _]|[_ [t [Ht Hk]]]]; [discriminate|]. subst k'. cbn [ko_cls ko_dict].
+      split; [reflexivity|]. exists t. split; [exact Ht|]. split; [apply dget_dset_same|].
+      intros m Hm. apply dget_dset_other. congruence.
+  Qed.
+End KeySetKids.
